@@ -28,7 +28,7 @@ Section Pipeline.
   Notation same_look := (@same_look P T act).
   Notation looks_like := (@looks_like P T act).
   Notation inline_glyph := (inline_glyph P T tmul act tneg tovf).
-  Notation flatten_glyph := (flatten_glyph P T tmul).
+  Notation flatten_glyph := (flatten_glyph P T tmul tid act tneg tovf teqb).
   Notation decompose := (decompose P T tmul tid act tneg tovf teqb).
   Notation split_simple := (split_simple P T tovf).
   Notation split_composite := (split_composite P T tid tovf).
@@ -182,16 +182,13 @@ Section Pipeline.
     inv F -> version F x g -> flatten_glyph fuel F g = Some (g', false) -> inv (upd F x g').
   Proof.
     intros I V H. apply inv_replace; auto.
-    assert (g_adv g' = g_adv g /\ g_export g' = g_export g) as (Ha & He).
-    { unfold Model.flatten_glyph in H. destruct (g_comps g); [inversion H; subst; auto|].
-      destruct (flat _ _ _ _ _ _ _ _) as [[s d]|]; [|discriminate]. inversion H; subst; simpl; auto. }
+    destruct (flatten_shape P T tmul tid act tneg tovf teqb fuel F g g' false H) as (Ha & He & Hs).
     eapply version_op; [exact V| | |exact Ha|exact He].
-    - intros cs Hcs. exists cs; split; [|apply ceqs_refl].
-      eapply (flatten_looks P T tmul act act_mul); eauto.
-    - destruct V as (_ & Hc & _). unfold Model.flatten_glyph in H. destruct (g_comps g) as [|p l] eqn:Eg.
-      + inversion H; subst. rewrite Eg. intros c t [].
-      + destruct (flat P T tmul fuel F (p :: l) [] false) as [[s d]|] eqn:Es; [|discriminate].
-        inversion H; subst; simpl. intros c t Hin. split.
+    - intros cs Hcs. eapply (flatten_looks P T tmul tid act tneg tovf teqb act_mul act_id); eauto.
+    - destruct V as (_ & Hc & _). destruct Hs as [->|[Hn|(lost & Es)]].
+      + exact Hc.
+      + rewrite Hn. intros c t [].
+      + intros c t Hin. split.
         * eapply (flat_rank P T tmul r F (r x) fuel (inv_wf F I) _ _ _ _ _ Es); [| |exact Hin].
           -- intros c' t' Hin'. apply (Hc c' t' Hin').
           -- intros c' t' [].
@@ -231,7 +228,7 @@ Section Pipeline.
   Notation fix_loop := (fix_loop P T tmul tid act tneg tovf teqb).
   Notation drop_unretained := (drop_unretained P T tmul tid act tneg tovf teqb).
   Notation convert_if := (convert_if P T tmul tid act tneg tovf teqb).
-  Notation flatten_step := (flatten_step P T tmul).
+  Notation flatten_step := (flatten_step P T tmul tid act tneg tovf teqb).
   Notation optional_transforms := (optional_transforms P T tmul tid act tneg tovf tnonid teqb).
   Notation inline_step := (inline_step P T tmul act tneg tovf).
   Notation inline_all := (inline_all P T tmul act tneg tovf).
